@@ -176,11 +176,16 @@ pub fn run_batched(lines: &[Line], batches: &[usize], gap: u64, case: u64) -> (O
         pos: usize,
         model: Model,
         last_sum: usize,
-        expect_advance: Option<bool>,
+        /// run state after the first p delivered lines: 0 running, 1 paused, 2 stopped
+        after: Vec<u8>,
+        /// iteration by which line j must have been handled (delivery + queue length + slack)
+        deadline: Vec<u64>,
+        /// which prefix lengths the emulator may have handled so far (in order, growing)
+        feasible: Vec<bool>,
         findings: Vec<(String, String)>,
         done: bool,
     }
-    let st = shared(St { tick: 0, next_batch: 0, pos: 0, model: Model::default(), last_sum: 0, expect_advance: None, findings: vec![], done: false });
+    let st = shared(St { tick: 0, next_batch: 0, pos: 0, model: Model::default(), last_sum: 0, after: vec![0], deadline: vec![], feasible: vec![true], findings: vec![], done: false });
     let s2 = st.clone();
     let tx = rig.to_emu.clone();
     let lines2: Vec<Line> = lines.to_vec();
@@ -189,14 +194,36 @@ pub fn run_batched(lines: &[Line], batches: &[usize], gap: u64, case: u64) -> (O
         let mut s = s2.borrow_mut();
         s.tick += 1;
         let sum = cpu.verif_state_sum();
-        // (ii) while paused nothing executes; while running exactly one instruction per iteration
-        if let Some(adv) = s.expect_advance {
+        // (ii) while paused nothing executes, while running one instruction per iteration - judged
+        // against every in-order prefix of the delivered lines the emulator may have handled by now:
+        // the prefix only grows, never passes a stop, reaches every line within (lines queued ahead of
+        // it + 4) iterations of its delivery, and its run state explains what the last iteration did
+        if s.tick >= 2 && !s.done {
             let advanced = sum != s.last_sum;
-            if adv != advanced {
-                let t = s.tick;
-                let last = s.last_sum;
-                s.findings.push((if adv { "not-running-after-start".into() } else { "executes-while-paused".into() }, format!("iteration {}: state count {} -> {} although the lines delivered so far leave the emulator {}", t, last, sum, if adv { "running" } else { "paused" })));
+            let hi = s.pos;
+            let tick = s.tick;
+            let lo = s.deadline.iter().take(hi).enumerate().filter(|(_, d)| **d < tick).map(|(j, _)| j + 1).max().unwrap_or(0);
+            let minp = s.feasible.iter().position(|f| *f).unwrap_or(0);
+            let mut next = vec![false; hi + 1];
+            for pp in minp.max(lo)..=hi {
+                if s.after[..pp].iter().any(|x| *x == 2) {
+                    break; // cannot pass a stop
+                }
+                if (s.after[pp] == 0) == advanced && s.after[pp] != 2 {
+                    next[pp] = true;
+                }
             }
+            if !next.iter().any(|f| *f) {
+                let last = s.last_sum;
+                let t = s.tick;
+                s.findings.push((
+                    if advanced { "executes-while-paused".into() } else { "not-running-after-start".into() },
+                    format!("iteration {}: state count {} -> {}; no in-order prefix of the {} lines delivered so far (at least {} of them due by now) leaves the emulator {}", t, last, sum, hi, lo, if advanced { "running" } else { "paused" }),
+                ));
+                // go on from "anything is possible" so that one deviation is reported once
+                next = (0..=hi).map(|pp| !s.after[..pp].iter().any(|x| *x == 2)).collect();
+            }
+            s.feasible = next;
         }
         s.last_sum = sum;
         if s.done {
@@ -211,13 +238,19 @@ pub fn run_batched(lines: &[Line], batches: &[usize], gap: u64, case: u64) -> (O
                 s.pos += 1;
                 let _ = tx.send(l.text(case + s.pos as u64));
                 s.model.apply(&l);
+                let st_now = if s.model.stopped { 2 } else if s.model.paused { 1 } else { 0 };
+                s.after.push(st_now);
+                // lines still unhandled in the worst case: everything delivered and not yet due
+                let t = s.tick;
+                let ahead = s.deadline.iter().filter(|d| **d >= t).count() as u64;
+                s.deadline.push(t + ahead + 1 + 4);
+                s.feasible.push(false);
             }
         } else if s.next_batch >= batches2.len() && !s.model.stopped {
             // script exhausted without a stop: end the run
             let _ = tx.send("cmd:stop".to_string());
             s.model.stopped = true;
         }
-        s.expect_advance = if s.model.stopped { None } else { Some(!s.model.paused) };
         if s.model.stopped {
             s.done = true;
         }
@@ -310,7 +343,10 @@ pub fn c18_case(rep: &mut Report, seed: u64, verbose: bool) -> bool {
     let mut bad = false;
     let text: Vec<String> = lines.iter().enumerate().map(|(i, l)| l.text(seed + i as u64 + 1)).collect();
     for p in &parts {
-        let gap = 1 + rng.below(3);
+        // batches back to back, or far enough apart that every line of a batch is due (handled) before
+        // the next batch arrives - then the run state between two batches is fully determined
+        let longest = p.iter().copied().max().unwrap_or(1) as u64;
+        let gap = if rng.chance(1, 2) { 1 + rng.below(3) } else { longest + 6 + rng.below(4) };
         let (out, findings) = run_batched(&lines, p, gap, seed);
         rep.evaluations += 1;
         rep.count("lines_delivered", n as u64);
